@@ -62,6 +62,7 @@ def sync_lines(tempo):
 def case_text(case) -> str:
     return chart_text(
         res=case["res"],
+        song=case.get("song"),
         sync=sync_lines(case.get("tempo") or [[0, 120000]]),
         tracks={case.get("header", HEADER): render_body(case["body"])},
     )
@@ -87,6 +88,9 @@ def observe(case, props) -> dict:
         "notes": [],
         "sp": [],
         "last": [],
+        "kind": "nt",
+        "pmin": -1,
+        "first": True,      # the record contains the section's first note (windows of a long section: only the first one)
     }
     kind, val = outcome(case_text(case))
     if kind == "raise":
@@ -112,11 +116,43 @@ def observe(case, props) -> dict:
             "us": limbs(td_us(e.timestamp)),
             "eus": limbs(td_us(e.end_timestamp)),
             "qe": limbs(td_us(bpm.timestamp_at_tick_no_optimize_return(e.end_tick))),
+            "p": len(rec["notes"]),
         })
     rec["sp"] = [{"t": int(e.tick), "l": int(e.sustain)} for e in tr.star_power_events]
     last = tr.last_note_end_timestamp
     rec["last"] = [] if last is None else [limbs(td_us(last))]
     return rec
+
+
+def observe_windows(case, props, window=60):
+    """For very long tracks: one real parse, judged in windows of whole tick groups.
+
+    The windows tile the tick axis (window k owns the ticks from its first written tick up to the next window's first
+    tick), so every observed note belongs to exactly one window; each note carries its position `p` in the observed
+    list and each window the largest position `pmin` of the windows before it, so that the global order is judged too.
+    """
+    rec = observe(case, props)
+    nl = rec["nl"]
+    if rec["raised"] or len(nl) == 0:
+        return [rec]
+    # group boundaries
+    starts = [0] + [k for k in range(1, len(nl)) if nl[k]["t"] != nl[k - 1]["t"]]
+    cuts = starts[::window] + [len(nl)]
+    notes = rec["notes"]
+    for pos, n in enumerate(notes):
+        n["p"] = pos
+    out = []
+    pmin = -1
+    for w in range(len(cuts) - 1):
+        lo, hi = cuts[w], cuts[w + 1]
+        t_lo = nl[lo]["t"] if w > 0 else -1
+        t_hi = nl[hi]["t"] if hi < len(nl) else None
+        mine = [n for n in notes if n["t"] >= t_lo and (t_hi is None or n["t"] < t_hi)]
+        r2 = dict(rec, id=f"{rec['id']}#w{w}", nl=nl[lo:hi], notes=mine, pmin=pmin, first=(w == 0), ph=[], sp=[], last=[])
+        out.append(r2)
+        if mine:
+            pmin = max(pmin, max(n["p"] for n in mine))
+    return out
 
 
 # ---------------------------------------------------------------------------------------------
